@@ -116,7 +116,23 @@ pub struct Resp {
     pub error: Option<String>,
 }
 
+/// Bytes sent on the connection right behind every complete request of this process (a stray
+/// empty line, a pipelined second request): one job runs at a time in a worker process.
+static TRAILER: std::sync::Mutex<Vec<u8>> = std::sync::Mutex::new(Vec::new());
+
+pub fn set_trailer(b: &[u8]) {
+    *TRAILER.lock().unwrap() = b.to_vec();
+}
+
 fn encode(req: &Req) -> Vec<u8> {
+    let mut out = encode_request(req);
+    if req.truncate_body.is_none() {
+        out.extend(TRAILER.lock().unwrap().iter());
+    }
+    out
+}
+
+fn encode_request(req: &Req) -> Vec<u8> {
     let mut out = Vec::new();
     out.extend(format!("{} {} HTTP/1.1\r\nHost: localhost\r\n", req.method, req.target).as_bytes());
     for (k, v) in &req.headers {
